@@ -71,7 +71,14 @@ type Server struct {
 
 // Serves the connection once we accepted it
 func (server *Server) serveConn(conn net.Conn) {
-	defer recover()
+	defer func() {
+		// recover only has an effect when called directly by a deferred
+		// function; a panic while serving one connection (TLS callbacks, the
+		// HTTP/2 serve loop and its hooks) must not take the process down
+		if r := recover(); r != nil {
+			server.logf("panic serving %s: %v", conn.RemoteAddr(), r)
+		}
+	}()
 	defer conn.Close()
 
 	hijackedConn := hack.NewHijackClientHelloConn(conn)
